@@ -51,10 +51,21 @@ def nontrivial(r):
 
 
 def run(ctx):
-    return common.conductor_run(
+    out = common.conductor_run(
         ctx, "C02", FAM, common.project_full, monitors.c02, features, nontrivial, 300, 6000,
         rule="generated definitions with fail commands and remediation under random histories dense in pause/resume/cancel "
              "requests; non-trivial = at least two of succeeded/failed/pausing/paused/canceling were reported")
+    # tie of the formal provider protocol (ProviderSys.v, what C02b / C03b quantify over) to the engine
+    if ctx["model_ok"]:
+        from harness import syscheck
+        n, in_scope, fails = syscheck.run(ctx["seed"] % 100000, 8 if ctx["tier"] == "quick" else 60)
+        out["provider_protocol_runs_checked"] = {"runs": n, "within_theorem_hypotheses": in_scope,
+                                                 "what": "protocol histories run on the engine through the reference "
+                                                         "provider and through ProviderSys.sys_run inside Coq: same "
+                                                         "final state, in-flight set, number of API calls, no fault"}
+        for f in fails:
+            out["violations"].append(dict(f, property="C02"))
+    return out
 
 
 def replay(payload):
